@@ -4,6 +4,7 @@
   period sizes as an oracle (the float computation only decides how the work is split, DESIGN §3.2(4)).
 -/
 import OpnVerif.Model.Basic
+import OpnVerif.Gen.Enums
 
 namespace Opn.Audio
 open Opn
@@ -24,9 +25,12 @@ def cvtU32 (x : Int) : Int := toSigned 32 (ofSigned 32 (cvtS32 x + 2147483648))
 inductive SType | s8 | u8 | s16 | u16 | s24 | u24 | s32 | u32 | f32 | f64
   deriving Repr, DecidableEq, Inhabited
 
-def SType.ofId : Nat → Option SType
-  | 0 => some .s8 | 1 => some .u8 | 2 => some .s16 | 3 => some .u16 | 4 => some .s24 | 5 => some .u24
-  | 6 => some .s32 | 7 => some .u32 | 8 => some .f32 | 9 => some .f64 | _ => none
+def SType.ofName : String → Option SType
+  | "S8" => some .s8 | "U8" => some .u8 | "S16" => some .s16 | "U16" => some .u16 | "S24" => some .s24 | "U24" => some .u24
+  | "S32" => some .s32 | "U32" => some .u32 | "F32" => some .f32 | "F64" => some .f64 | _ => none
+
+/-- the numeric ids are those of the regenerated enumeration OPNMIDI_SampleType -/
+def SType.ofId (i : Nat) : Option SType := (Gen.sampleTypeNames[i]?).bind SType.ofName
 
 /-- little-endian two's-complement bytes of an integer in a container of `n` bytes (`static_cast<Dst>` + store) -/
 def leBytes (n : Nat) (v : Int) : List Nat :=
